@@ -36,10 +36,11 @@ type c14Model struct {
 	AttSigned          []string
 	RepNamed           []string
 	RepSigned          []string
-	AttForms, RepForms int  // forms created so far (bounded)
-	Second             bool // a second pair of forms (about Q1) has been requested
-	Restarted          bool // the storage module has been restarted from its exported genesis
-	F2Deleted          bool // the second file (Q6's only proof) has been deleted by its owner
+	AttForms, RepForms int      // forms created so far (bounded)
+	Second             bool     // a second pair of forms (about Q1) has been requested
+	Restarted          bool     // the storage module has been restarted from its exported genesis
+	F2Deleted          bool     // the second file (Q6's only proof) has been deleted by its owner
+	Shut               []string // providers that have deregistered (they may still be named on an open form)
 }
 
 func (m c14Model) Key() []byte { return jkey(m) }
@@ -128,6 +129,11 @@ func (s C14) Events(env world.Env, mm mc.Model) []string {
 	if !m.F2Deleted {
 		evs = append(evs, "DeleteF2") // the owner deletes the second file: Q6 no longer holds any proof
 	}
+	for _, q := range []string{"Q2", "Q3"} {
+		if !has(m.Shut, q) {
+			evs = append(evs, "Shutdown:"+q) // a provider deregisters, possibly while named on an open form
+		}
+	}
 	if m.Blocks < 2 {
 		evs = append(evs, "NextBlock")
 	}
@@ -159,6 +165,15 @@ func (s C14) Apply(env world.Env, mm mc.Model, ev string) mc.Step {
 	if s.Extra && !m.F2Deleted {
 		holders = append(holders, "Q6")
 	}
+	if len(m.Shut) > 0 { // a deregistered provider is not a registered proof holder any more (for forms drawn from now on)
+		var still []string
+		for _, h := range holders {
+			if !has(m.Shut, h) {
+				still = append(still, h)
+			}
+		}
+		holders = still
+	}
 
 	checkNames := func(kind string, names []string) []string {
 		var out []string
@@ -183,6 +198,14 @@ func (s C14) Apply(env world.Env, mm mc.Model, ev string) mc.Step {
 		}
 		m.Blocks++
 		st.Outcome = "block"
+	case "Shutdown":
+		if env.Deliver(storagetypes.NewMsgShutdownProvider(w.A(p[1]).Bech)).OK() {
+			st.Outcome = "ok"
+			m.Shut = append(append([]string{}, m.Shut...), p[1])
+			sort.Strings(m.Shut)
+		} else {
+			panic("harness: a registered provider could not deregister")
+		}
 	case "DeleteF2":
 		if env.Deliver(storagetypes.NewMsgDeleteFile(u, c14File2.merkle, m.Start)).OK() {
 			st.Outcome = "ok"
@@ -321,8 +344,8 @@ func init() {
 			r.AddExplore(C14{Size: sm[0], Min: sm[1]}, opts(tier, 12, 16, 15, 240, 30, 300))
 		}
 		r.Rules = append(r.Rules, "extra variant for (3,2) and (2,2): the same plus a second pair of forms about another prover, one restart of the storage module from its own exported genesis (open forms must survive byte-identically) and a provider whose only proof can disappear (the owner deletes that file) inside the block in which forms are requested")
-		r.AddExplore(C14{Size: 3, Min: 2, Extra: true}, opts(tier, 8, 11, 40, 600, 30, 300))
-		r.AddExplore(C14{Size: 2, Min: 2, Extra: true}, opts(tier, 8, 11, 40, 600, 30, 300))
+		r.AddExplore(C14{Size: 3, Min: 2, Extra: true}, opts(tier, 7, 11, 40, 600, 30, 300))
+		r.AddExplore(C14{Size: 2, Min: 2, Extra: true}, opts(tier, 7, 11, 40, 600, 30, 300))
 	}}
 	_ = sdk.ZeroInt
 }
